@@ -851,6 +851,7 @@ func upperProven(idx ssa.Value, X ssa.Value, at *ssa.BasicBlock) bool {
 func ruleVarIndex(rule string, frozen map[string]int) func(*Ctx) {
 	return func(c *Ctx) {
 		got := map[string]int{}
+		unproven := map[string]int{}
 		total, proven := 0, 0
 		firstPos := map[string]token.Pos{}
 		for _, f := range c.srcFuncs() {
@@ -872,13 +873,15 @@ func ruleVarIndex(rule string, frozen map[string]int) func(*Ctx) {
 						continue
 					}
 					total++
-					key := fmt.Sprintf("%s:%s[%s]", fn, p.Name(), exprOf(ia.Index))
+					key := fmt.Sprintf("%s:param#%d", fn, paramIndex(f, p)) // by position: local and parameter names may change
 					if _, ok := firstPos[key]; !ok {
 						firstPos[key] = ia.Pos()
 					}
 					if upperProven(ia.Index, ia.X, b) {
 						proven++
 						got[key]++
+					} else {
+						unproven[key]++
 					}
 				}
 			}
@@ -889,10 +892,11 @@ func ruleVarIndex(rule string, frozen map[string]int) func(*Ctx) {
 		}
 		sort.Strings(keys)
 		for _, k := range keys {
-			fn := k[:strings.LastIndex(k[:strings.Index(k, "[")], ":")]
-			c.check(got[k] >= frozen[k], rule, rule+":"+k, firstPos[k], fn,
-				fmt.Sprintf("%d read(s) %s are dominated by a guard establishing index < len on the same index value", got[k], k[strings.LastIndex(k[:strings.Index(k, "[")], ":")+1:]),
-				fmt.Sprintf("%s: %d of the %d reads that were guarded on the confirmed tree are no longer dominated by `index < len` (or `<= len-1`) on the same index value: the index can run one past the end", k, frozen[k]-got[k], frozen[k]),
+			fn := k[:strings.LastIndex(k, ":")]
+			c.fn(fn)
+			c.check(unproven[k] <= frozen[k], rule, rule+":"+k, firstPos[k], fn,
+				fmt.Sprintf("slice parameter %s: %d variable-index reads are dominated by `index < len` on the same index value; %d are not (as many as on the confirmed tree, where each was reviewed)", k[strings.LastIndex(k, ":")+1:], got[k], unproven[k]),
+				fmt.Sprintf("%s: %d variable-index reads are not dominated by `index < len` (or `<= len-1`) on the same index value; the confirmed tree had %d: a guard was removed, weakened or moved, or a new unguarded read was added — the index can run past the end", k, unproven[k], frozen[k]),
 				"an off-by-one between a loop guard and the read it protects panics on the last element (all-on-boundary paths in the rectangle scans)")
 		}
 		var extra []string
@@ -959,4 +963,13 @@ func reloadedUnchanged(g, use ssa.Value, gb, ub *ssa.BasicBlock) bool {
 		b = b.Preds[0]
 	}
 	return b == gb
+}
+
+func paramIndex(f *ssa.Function, p *ssa.Parameter) int {
+	for i, q := range f.Params {
+		if q == p {
+			return i
+		}
+	}
+	return -1
 }
